@@ -24,6 +24,9 @@ pub fn all() -> Vec<(&'static str, Blueprint)> {
         ("v12_fallbacks", v12_fallbacks()),
         ("v13_diamonds", v13_diamonds()),
         ("v14_state_collision", v14_state_collision()),
+        ("v15_prefix_param_fallback", v15_prefix_param_fallback()),
+        ("v16_prefix_param_suffix_fallback", v16_prefix_param_suffix_fallback()),
+        ("v17_prefix_param_infix_fallback", v17_prefix_param_infix_fallback()),
         ("x01_missing", x01_missing()),
         ("x02_missing_transitive", x02_missing_transitive()),
         ("x03_cycle", x03_cycle()),
@@ -44,6 +47,7 @@ pub fn all() -> Vec<(&'static str, Blueprint)> {
         ("x18_two_diamonds", x18_two_diamonds()),
         ("x19_one_diamond", x19_one_diamond()),
         ("x20_observer_cycle", x20_observer_cycle()),
+        ("x21_singleton_two_scopes", x21_singleton_two_scopes()),
     ]
 }
 
@@ -456,5 +460,48 @@ pub fn x20_observer_cycle() -> Blueprint {
     bp.error_observer(bad::observer_cycle::OC_OBSERVER);
     bp.route(bad::observer_cycle::OC_HANDLER);
     bp.route(misc::PING);
+    bp
+}
+
+fn nested_with_fallback_behind(prefix: &str) -> Blueprint {
+    let mut bp = base();
+    bp.prefix(prefix).nest({
+        let mut bp = Blueprint::new();
+        bp.route(admin::ADMIN_STATS);
+        bp.fallback(admin::ADMIN_FALLBACK);
+        bp
+    });
+    bp.route(misc::PING);
+    bp.fallback(misc::ROOT_FALLBACK);
+    bp
+}
+
+/// A nested blueprint with its own fallback behind a prefix whose last segment is a path parameter.
+pub fn v15_prefix_param_fallback() -> Blueprint {
+    nested_with_fallback_behind("/tenants/{tenant}")
+}
+
+/// … whose last segment ends with a path parameter.
+pub fn v16_prefix_param_suffix_fallback() -> Blueprint {
+    nested_with_fallback_behind("/t{tenant}")
+}
+
+/// … whose last segment holds a path parameter followed by a literal.
+pub fn v17_prefix_param_infix_fallback() -> Blueprint {
+    nested_with_fallback_behind("/tenants/{tenant}x")
+}
+
+/// The same singleton type constructed in the parent scope and again in a nested scope.
+pub fn x21_singleton_two_scopes() -> Blueprint {
+    let mut bp = Blueprint::new();
+    bp.import(from![pavex]);
+    bp.constructor(bad::scopes::SC_PARENT_QUOTA);
+    bp.route(bad::scopes::SC_PARENT);
+    bp.nest({
+        let mut bp = Blueprint::new();
+        bp.constructor(bad::scopes::SC_CHILD_QUOTA);
+        bp.route(bad::scopes::SC_CHILD);
+        bp
+    });
     bp
 }
